@@ -14,6 +14,7 @@ structure St where
   started : Bool := false
   others : List (String × Eng) := []    -- databases with other names (created by /halt, /import)
   halts : List (String × Int) := []     -- database name → id of the halt lock granted on it
+  haltPos : List (String × Nat) := []    -- ... and the TXID it was granted at (a repeated acquire answers the same lock)
 
 def pctDecode (s : String) : List Char :=
   let rec go : List Char → List Char
@@ -121,7 +122,7 @@ def step (st : St) (line : String) : St × String :=
            let id := params.id.getD 0
            let (st, e) := st.ensureDB name
            if st.halts.lookup name == some id then
-             (st, s!"status=200 halt=\{\"TXID\":\"{hex16n e.posTxid}")
+             (st, s!"status=200 halt=\{\"TXID\":\"{hex16n ((st.haltPos.lookup name).getD e.posTxid)}")
            else
            (match e.locks.tryAcquireWriteLock e.walMode with
             | (t, none) => (st.setDB name { e with locks := t }, "status=500")
@@ -131,7 +132,8 @@ def step (st : St) (line : String) : St × String :=
               let e2 := match Recovery.rollbackJournal e1 with
                 | .ok s1 => (match checkpointNoLock s1 with | .ok s2 => s2 | .error _ => s1)
                 | .error _ => e1
-              ({ (st.setDB name e2) with halts := (name, id) :: st.halts.filter (·.1 != name) },
+              ({ (st.setDB name e2) with halts := (name, id) :: st.halts.filter (·.1 != name),
+                                         haltPos := (name, e2.posTxid) :: st.haltPos.filter (·.1 != name) },
                s!"status=200 halt=\{\"TXID\":\"{hex16n e2.posTxid}"))
          | .deleteHalt =>
            (match st.db name, params.id with
